@@ -44,7 +44,7 @@ impl OpeningHoursExpression {
             return kind == RuleKind::Closed;
         };
 
-        tail.kind == kind && tail.is_constant()
+        tail.kind == kind && tail.is_constant() && tail.operator != RuleOperator::Fallback
     }
 
     /// Convert the expression into a normalized form. It will not affect the meaning of the
